@@ -289,13 +289,16 @@ pub fn run(r: &mut Rec) {
         value_case(r, &format!("pow2 {}", len), &d, &all_text, true);
     }
     // around the 64-digit big-base threshold and beyond: every radix at 63/64/65 (one radix per case keeps shards balanced)
-    let big_lens: Vec<usize> = if r.thorough { vec![63, 64, 65, 66, 100, 130, 200, 300] } else { vec![63, 64, 65, 130] };
+    // (the big-base path squares its chunk base until it has sqrt(len) digits: the deeper levels of that recursion only
+    // run for long values, and how many native digits a squared base occupies depends on the radix - so every radix is
+    // taken to 130 digits, and a spread of radices to 300 / 600)
+    let big_lens: Vec<usize> = if r.thorough { vec![63, 64, 65, 66, 81, 100, 130, 200, 300, 600] } else { vec![63, 64, 65, 130, 300] };
     for &len in &big_lens {
         for &radix in &all_text {
-            if !r.thorough && len > 65 && ![3u32, 10, 36, 7].contains(&radix) {
+            if !r.thorough && len == 300 && ![3u32, 7, 10, 17, 21, 24, 31, 36].contains(&radix) {
                 continue;
             }
-            if len >= 200 && ![3u32, 10, 36, 2, 8].contains(&radix) {
+            if r.thorough && len == 600 && ![3u32, 7, 10, 21, 36].contains(&radix) {
                 continue;
             }
             let pat = *rng.pick(&[Pat::Random, Pat::Ones, Pat::LowZeros, Pat::HighOne]);
@@ -321,9 +324,9 @@ pub fn run(r: &mut Rec) {
         let d = digits(&mut rng, len, Pat::Random);
         radix_vec_case(r, &format!("vec {}", len), &d, &vec_radices);
     }
-    for &len in &[63usize, 64, 65, 130] {
-        for &radix in &[3u32, 10, 100, 255, 256, 128, 7, 64] {
-            if !r.thorough && len == 130 && radix != 255 {
+    for &len in &[63usize, 64, 65, 130, 300] {
+        for &radix in &[3u32, 10, 100, 255, 256, 128, 7, 64, 41, 200] {
+            if !r.thorough && len == 300 && ![41u32, 100, 200].contains(&radix) {
                 continue;
             }
             let d = digits(&mut rng, len, Pat::Random);
